@@ -370,7 +370,21 @@ namespace
                                 {
                                     runtime.context_active().clear_values();
                                     frame.clear_value_scope();
-                                    return m_code.empty() ? result::seek_start : result::exchange;
+                                    if (!m_code.empty())
+                                    {
+                                        return result::exchange;
+                                    }
+                                    // Empty body: the iteration is complete, it counts towards the limit of unscheduled loops
+                                    if (!runtime.context_active().can_suspend())
+                                    {
+                                        m_loop_count++;
+                                        auto max = runtime.configuration().max_loop_iterations_in_unscheduled;
+                                        if (max > 0 && m_loop_count >= max)
+                                        {
+                                            return result::ok;
+                                        }
+                                    }
+                                    return result::seek_start;
                                 }
                             }
                             else if (res->empty())
